@@ -132,13 +132,7 @@ def run(ctx: Ctx):
     printers.check_not_normalised(ctx, "R11.a")
 
     # reader side: generic function application uses every argument
-    be = sm.func("expressions.py", "build_expression.expr2symbols")
-    gen = [c for c in ast.walk(be.node) if isinstance(c, ast.Call) and isinstance(c.func, ast.Call) and (dotted(c.func.func) or "") == "getattr"]
-    ctx.require(len(gen) >= 2, "build_expression: generic getattr(sp, name)(*args) applications not found")
-    for c in gen:
-        st = [a for a in c.args if isinstance(a, ast.Starred)]
-        ok = len(st) == 1 and len(c.args) == 1 and isinstance(st[0].value, (ast.ListComp, ast.GeneratorExp)) and norm(st[0].value.generators[0].iter) == "tree.children[1:]" and not st[0].value.generators[0].ifs
-        ctx.check(ok, "R11.a", be.key(f"apply-all::{norm(c.func)[:40]}"), "function applied to every child after the name", f"build_expression applies `{norm(c.func)}` to {norm(c)[len(norm(c.func)):][:60]} instead of every child expression: And(a, b, c) as written by the saver loses operands on reload", be.where(c))
+    check_apply_all(ctx, "R11.a")
 
     ctx.rule("R11.b", "coverage: the writer emits comments, states, parameters and all assignments; each helper writes name, value/expression, unit, description and component names unmodified", floor=12)
     w = sm.func("save.py", "write_ODE_to_ode_file")
@@ -197,3 +191,37 @@ def run(ctx: Ctx):
     so = sm.func("codegen/ode.py", "start_odeblock")
     gens = [n for n in ast.walk(so.node) if isinstance(n, (ast.GeneratorExp, ast.ListComp))]
     ctx.check(bool(gens) and fstring_skeleton(gens[0].elt) == '"{n}"' and norm(gens[0].generators[0].iter) == "names" and not gens[0].generators[0].ifs, "R11.b", so.key("names"), "every component name, quoted", "start_odeblock does not write every component name in quotes", so.where())
+
+
+def check_apply_all(ctx: Ctx, rule: str):
+    """reader side: the generic applications getattr(sympy, <name>)(...) in what expr2symbols computes for `func` and
+    `logicalfunc` nodes receive every child after the name, each converted, in order."""
+    from sa import av as _av
+
+    from . import util
+
+    be = ctx.sm.func("expressions.py", "build_expression.expr2symbols")
+    v = util.value_of(ctx, be)
+    tp = be.params[0]
+    cases = util.dispatch_cases(v, ("sym", f"{tp}.data"))
+    for kind in ("func", "logicalfunc"):
+        key = be.key(f"apply-all::{kind}")
+        cv = cases.get(kind)
+        if cv is None:
+            ctx.undecided(rule, key, f"what expr2symbols builds for `{kind}` nodes is not found in its value", be.where())
+            continue
+        gen = [c for c in _av.find_all(cv, "call") if c[1].startswith("getattr(sympy,")]
+        if not gen:
+            if _av.has_unk(cv):
+                ctx.undecided(rule, key, f"what expr2symbols builds for `{kind}` nodes is not understood", be.where())
+            else:
+                ctx.undecided(rule, key, f"`{kind}` nodes are not applied through getattr(sympy, name)(...): the application is not judged here", be.where())
+            continue
+        bad = None
+        children = ("slice", ("sym", f"{tp}.children"), _av.C(1), _av.NONE)
+        for c in gen:
+            a = c[2]
+            ok = len(a) == 1 and not c[3] and a[0][0] == "spread" and a[0][1][0] == "comp" and _av._unwrap_seq(a[0][1][2]) == children and not a[0][1][4] and len(a[0][1][3]) == 1 and a[0][1][3][0] == ("call", be.name, (("bv", a[0][1][1]),), ())
+            if not ok:
+                bad = _av.show(c)[:160]
+        ctx.check(bad is None, rule, key, "function applied to every child after the name", f"build_expression applies a `{kind}` as `{bad}` instead of to every converted child after the name: And(a, b, c) as written by the saver loses operands on reload", be.where())
